@@ -57,10 +57,12 @@ class GopherPlusProtocol(GopherProtocol):
                 )
             else:
                 handler.prepare()
-                self.wfile.write(f"+{self.entry.getsize(-2)}\r\n".encode())
                 if handler.isdir():
+                    # A menu is generated: its length is not known in advance.
+                    self.wfile.write(b"+-2\r\n")
                     self.writedir(self.entry, handler.getdirlist())
                 else:
+                    self.wfile.write(f"+{self.entry.getsize(-2)}\r\n".encode())
                     handler.write(self.wfile)
         except GopherExceptions.FileNotFound as e:
             self.filenotfound(str(e))
